@@ -66,6 +66,9 @@ Error BaseBuilder::new_inst_node(Out<InstNode*> out, InstId inst_id, InstOptions
   }
 
   out = new(Support::PlacementNew{ptr}) InstNode(inst_id, inst_options, op_count, op_capacity);
+
+  // Operands the caller never sets must be none - the node's memory is not zeroed (and can be recycled).
+  (*out)->reset_op_range(0, op_capacity);
   return Error::kOk;
 }
 
